@@ -872,6 +872,8 @@ class BuilderSim:
                 self.actor_step(a, drain)
             else:
                 a.step()
+            # a cheap abstract state of the world, for the evidence's "distinct states" measure
+            ctx.states.append(f"{len(self.hugr)}:{sum(1 for x in self.actors if not getattr(x, 'closed', False))}:{a.id}")
             if self.after_step is not None:
                 self.after_step(self)
         return True
